@@ -1,10 +1,12 @@
-// Command run executes requests against the real poly code, in-process.
+// Package runner executes requests against the real poly code, in-process.
 // One request per stdin line (op TAB args...), one reply per stdout line:
-//   ok TAB values... | err TAB message | panic TAB message | timeout
+//
+//	ok TAB values... | err TAB message | panic TAB message | timeout
+//
 // A panic in poly is recovered and reported; a timeout is reported and the
 // process exits with status 3 (leaked goroutines cannot be reclaimed), the
 // check restarts it on the remaining requests.
-package main
+package runner
 
 import (
 	"bufio"
@@ -17,18 +19,18 @@ import (
 )
 
 // handler runs one request; it returns the reply fields (without status) or an error.
-type handler func(args []string) ([]string, error)
+type Handler func(args []string) ([]string, error)
 
-var handlers = map[string]handler{}
+var handlers = map[string]Handler{}
 
-func register(op string, h handler) { handlers[op] = h }
+func Register(op string, h Handler) { handlers[op] = h }
 
 type reply struct {
 	status string
 	fields []string
 }
 
-func call(h handler, args []string) (r reply) {
+func call(h Handler, args []string) (r reply) {
 	defer func() {
 		if p := recover(); p != nil {
 			r = reply{"panic", []string{fmt.Sprint(p)}}
@@ -41,7 +43,7 @@ func call(h handler, args []string) (r reply) {
 	return reply{"ok", out}
 }
 
-func main() {
+func Main() {
 	timeout := 20 * time.Second
 	if v := os.Getenv("VERIF_CASE_TIMEOUT_MS"); v != "" {
 		if ms, err := strconv.Atoi(v); err == nil {
